@@ -7,7 +7,7 @@ import (
 )
 
 // NumTactics is the number of shape constructors Tactic cycles through.
-const NumTactics = 12
+const NumTactics = 13
 
 // flipColors mirrors the position so that shapes are exercised for both colours.
 func maybeFlip(r *rand.Rand, p ref.Pos) ref.Pos {
@@ -333,6 +333,54 @@ func Tactic(r *rand.Rand, i int) (ref.Pos, bool) {
 			putFree(r, &p, []int8{ref.Queen, ref.Rook, ref.Rook, ref.Queen, ref.Bishop, ref.Knight}[r.Intn(6)])
 		}
 		p.White = r.Intn(3) != 0
+	case 12: // one piece pinned against two queens (or king and queen) along two different lines
+		x := ref.Sq(2+r.Intn(4), 2+r.Intn(4))
+		p.B[x] = []int8{ref.Knight, ref.Bishop, ref.Rook, ref.Pawn}[r.Intn(4)]
+		perm := r.Perm(4) // line families: 0 rank, 1 file, 2 diagonal, 3 anti-diagonal
+		lines := [4][2]int{{1, 0}, {0, 1}, {1, 1}, {1, -1}}
+		targets := []int8{ref.Queen, ref.Queen}
+		if r.Intn(3) == 0 {
+			targets[0] = ref.King
+		}
+		for li := 0; li < 2; li++ {
+			d := lines[perm[li]]
+			if r.Intn(2) == 0 {
+				d = [2]int{-d[0], -d[1]}
+			}
+			// own target on one side, enemy slider on the other, nothing in between
+			t := 1 + r.Intn(2)
+			a := 1 + r.Intn(2)
+			tf, tr := ref.File(x)+d[0]*t, ref.Rank(x)+d[1]*t
+			af, ar := ref.File(x)-d[0]*a, ref.Rank(x)-d[1]*a
+			if tf < 0 || tf > 7 || tr < 0 || tr > 7 || af < 0 || af > 7 || ar < 0 || ar > 7 {
+				return p, false
+			}
+			if p.B[ref.Sq(tf, tr)] != 0 || p.B[ref.Sq(af, ar)] != 0 {
+				return p, false
+			}
+			p.B[ref.Sq(tf, tr)] = targets[li]
+			slider := int8(ref.Queen)
+			if r.Intn(2) == 0 {
+				if perm[li] < 2 {
+					slider = ref.Rook
+				} else {
+					slider = ref.Bishop
+				}
+			}
+			p.B[ref.Sq(af, ar)] = -slider
+		}
+		if targets[0] != ref.King {
+			if putFree(r, &p, ref.King) < 0 {
+				return p, false
+			}
+		}
+		if putFree(r, &p, -ref.King) < 0 {
+			return p, false
+		}
+		if r.Intn(2) == 0 {
+			sprinkle(r, &p, r.Intn(4))
+		}
+		p.White = r.Intn(2) == 0
 	case 11: // stalemate as the weaker side's resource: a king boxed in a corner in front of its own rook pawn
 		f := []int{0, 7}[r.Intn(2)]
 		dir := 1
@@ -463,6 +511,43 @@ func BoxedKing(r *rand.Rand) (ref.Pos, bool) {
 			continue
 		}
 		return maybeFlip(r, p), true
+	}
+	return ref.Pos{}, false
+}
+
+// EPOnlyDefence searches for a position in which the side to move is in check from a pawn that has just
+// made a double step and the en-passant capture of that pawn is the only legal move.
+func EPOnlyDefence(r *rand.Rand) (ref.Pos, bool) {
+	for try := 0; try < 30000; try++ {
+		p, ok := Tactic(r, 3)
+		if !ok {
+			continue
+		}
+		// Tactic may have colour-flipped it; add heavy pieces for the checking side to box the king in
+		for i := 0; i < 2+r.Intn(4); i++ {
+			v := []int8{ref.Queen, ref.Rook, ref.Rook, ref.Bishop, ref.Knight}[r.Intn(5)]
+			if p.White {
+				v = -v
+			}
+			putFree(r, &p, v)
+		}
+		if !valid(&p) || !p.InCheck(p.White) {
+			continue
+		}
+		ms := p.LegalMoves()
+		if len(ms) == 0 {
+			continue
+		}
+		only := true
+		for _, m := range ms {
+			if m.Kind != ref.KEnPassant {
+				only = false
+				break
+			}
+		}
+		if only {
+			return p, true
+		}
 	}
 	return ref.Pos{}, false
 }
